@@ -4,6 +4,7 @@ import cowrite
 import generic_lints
 import twins
 import triggers
+import dead_reads
 
 
 def run(facts, tier):
@@ -13,6 +14,7 @@ def run(facts, tier):
         ("bound algebra", F.bounds, 6, "lower/upper/estimate/maximum-error formulas; result filter pairing; descending order"),
         ("bookkeeping", F.bookkeeping, 5, "update order; merge adds offsets and the total computed before the replay; emptiness considers total weight"),
         ("probe displacement", F.probe_displacement, 1, "hash_delete measures displacement with a wrapping step counter"),
+        ("reader dead-reads", lambda fa: [o for o in dead_reads.obligations(fa) if "frequent_items_sketch" in o["key"]], 10, "every field the frequent-items readers take from the image (total weight, offset, weights, items) reaches the restored sketch on every accepting path"),
         ("couplings", lambda fa: cowrite.obligations(fa, ['frequent_items_sketch', 'reverse_purge_hash_map']), 8, "fields that every mutator updates together (counters, extremes, cached values) are still updated together"),
         ("tautologies", lambda fa: generic_lints.tautologies(fa, ('fi/',)), 2, "no comparison / assignment / min-max with two identical operands, no if-else with identical arms"),
         ("duplicate operands", lambda fa: generic_lints.duplicate_conjuncts(fa, ('fi/',)), 2, "no logical chain tests the same operand twice (copy-paste of the wrong peer)"),
